@@ -293,3 +293,23 @@ Proof.
   intros H. destruct (H [0;0;0]%Z) as (e & I & E); [vm_compute; auto|].
   destruct I as [<-|[<-|[]]]; vm_compute in E; destruct E as [E|E]; discriminate.
 Qed.
+
+(** the conversion of an undirected input BEFORE the repair a58b70a: every coefficient is counted twice *)
+Lemma cvec_undirected_doubled_eq ro net iso e :
+  cvec_undirected_doubled ro net iso e = map (fun z => (2 * z)%Z) (cvec ro net iso e).
+Proof.
+  unfold cvec_undirected_doubled, cvec. rewrite map_map. apply map_ext. intros s. rewrite entry_app. lia.
+Qed.
+
+Lemma undirected_input_refuted :
+  exists net, NoDup (map rid net) /\
+    fst (complex_graph net []) = [[1;1;0]; [0;0;1]]%Z /\
+    fst (complex_graph_undirected_doubled net []) = [[2;2;0]; [0;0;2]]%Z /\
+    ~ (forall v, In v (fst (complex_graph_undirected_doubled net [])) ->
+         exists e, In e net /\ (v = side_vec net [] (rlhs e) \/ v = side_vec net [] (rrhs e))).
+Proof.
+  exists ex_rev. split; [repeat constructor; simpl; intuition discriminate|].
+  split; [vm_compute; reflexivity|]. split; [vm_compute; reflexivity|].
+  intros H. destruct (H [2;2;0]%Z) as (e & I & E); [vm_compute; auto|].
+  destruct I as [<-|[<-|[]]]; vm_compute in E; destruct E as [E|E]; discriminate.
+Qed.
